@@ -11,9 +11,9 @@ CONSTANTS
   RetryCount = 2
   MaxCrash = 1
   AllowWindow = FALSE
-  StartStates = {"empty", "data+ownsnap"}
+  StartStates = {"empty", "data"}
   OtherAtStart = {FALSE}
-  ReceiveOnly = FALSE
+  ReceiveOnly = TRUE
   MaxForce = 0
   OnlyOnce = FALSE
 SPECIFICATION Spec
